@@ -23,6 +23,7 @@ def env():
     e["CARGO_NET_OFFLINE"] = "true"
     e.setdefault("VERIF_SEED", "1")
     e["VERIF_WORK"] = WORK
+    e["VERIF_HOOKS_ECHO"] = "1"
     e.pop("RUSTFLAGS", None)
     return e
 
@@ -102,8 +103,8 @@ def run_engine(cmd, result_path, what, timeout=7200, extra_env=None):
                 "evaluations": 1, "distinct_nontrivial": 0, "nontrivial": 0, "rule": "crash localisation run",
                 "samples": [case], "classes": {}, "counters": {},
                 "failures": [{"signature": "crash", "case": case,
-                              "message": "the process died (exit status %s) executing generated cases; this case reproduces it in a fresh process (exit status %s): %s"
-                                         % (rc, rc3, (log3 or log2 or log)[-600:])}],
+                              "message": "the process died (exit status %s) executing generated cases; this case reproduces it in a fresh process (exit status %s): %s %s"
+                                         % (rc, rc3, " | ".join([l for l in (log3 or "").splitlines() if l.startswith("HOOK-VIOLATION")][:3]), (log3 or log2 or log)[-400:])}],
             }
         raise Inconclusive("%s died (rc %s) and the crash could not be attributed to a case:\n%s" % (what, rc, log[-2000:]))
     raise Inconclusive("%s failed (rc %s):\n%s" % (what, rc, log[-3000:]))
@@ -416,29 +417,29 @@ def e5_part(prop_arg, n):
 
 
 PROPERTIES = {
-    "C01": dict(level="exploration", parts=[e1_part("C01", dict(quick=100000, thorough=2000000))] + [fuzz_part("layout", "C01", dict(quick=0, thorough=250000), 256)]),
-    "C02": dict(level="exploration", parts=[e1_part("C02", dict(quick=100000, thorough=2000000))] + e3_parts("C02", "B", dict(quick=20000, thorough=200000)) + [fuzz_part("layout", "C02", dict(quick=0, thorough=250000), 256)]),
-    "C03": dict(level="exploration", parts=[e1_part("C03", dict(quick=100000, thorough=2000000))] + e3_parts("C03", "B", dict(quick=100000, thorough=1500000)) + [e5_part("C03", dict(quick=400, thorough=6000))] + [fuzz_part("layout", "C03", dict(quick=0, thorough=250000), 256)]),
+    "C01": dict(level="exploration", parts=[e1_part("C01", dict(quick=400000, thorough=4000000))] + [fuzz_part("layout", "C01", dict(quick=0, thorough=250000), 256)]),
+    "C02": dict(level="exploration", parts=[e1_part("C02", dict(quick=200000, thorough=2000000))] + e3_parts("C02", "B", dict(quick=20000, thorough=200000)) + [fuzz_part("layout", "C02", dict(quick=0, thorough=250000), 256)]),
+    "C03": dict(level="exploration", parts=[e1_part("C03", dict(quick=400000, thorough=4000000))] + e3_parts("C03", "B", dict(quick=100000, thorough=1500000)) + [e5_part("C03", dict(quick=400, thorough=6000))] + [fuzz_part("layout", "C03", dict(quick=0, thorough=250000), 256)]),
     "C04": dict(level="exploration", parts=e3_parts("C04", "AB", dict(quick=150000, thorough=2500000)) + [fuzz_part("gendrive", "C04", dict(quick=0, thorough=150000), 160)]),
     "C05": dict(level="exploration", parts=e3_parts("C05", "AB", dict(quick=150000, thorough=2500000)) + [fuzz_part("gendrive", "C05", dict(quick=0, thorough=150000), 160)]),
     "C06": dict(level="exploration", parts=e3_parts("C06", "AB", dict(quick=150000, thorough=2500000)) + [fuzz_part("gendrive", "C06", dict(quick=0, thorough=200000), 160)]),
     "C07": dict(level="exploration", parts=e3_parts("C07", "AC", dict(quick=150000, thorough=2500000)) + [e3_miri_part("C07", dict(quick=30, thorough=400))] + [fuzz_part("gendrive", "C07", dict(quick=0, thorough=300000), 160)]),
     "C15": dict(level="exploration", parts=e3_parts("C15", "AB", dict(quick=150000, thorough=2500000))),
     "C16": dict(level="exploration", parts=e3_parts("C16", "AB", dict(quick=150000, thorough=2500000)) + [fuzz_part("gendrive", "C16", dict(quick=0, thorough=150000), 160)]),
-    "C08": dict(level="exploration", parts=e4_parts("C08", dict(quick=60000, thorough=1500000), dict(quick=8, thorough=12)) + [fuzz_part("vecconv", "C08", dict(quick=0, thorough=600000), 128)]),
-    "C09": dict(level="fault_enumeration", parts=e4_parts("C09", dict(quick=60000, thorough=1500000), dict(quick=8, thorough=11)) + [fuzz_part("vecconv", "C09", dict(quick=0, thorough=600000), 128)]),
-    "C10": dict(level="exploration", parts=e4_parts("C10", dict(quick=40000, thorough=600000), dict(quick=12, thorough=40)) + [fuzz_part("vecconv", "C10", dict(quick=0, thorough=600000), 128)]),
-    "C12": dict(level="exploration", parts=[e1_part("C12", dict(quick=100000, thorough=2000000))] + [fuzz_part("layout", "C12", dict(quick=0, thorough=250000), 256)]),
-    "C11": dict(level="exploration", parts=[e5_part("C11", dict(quick=400, thorough=6000))]),
-    "C13": dict(level="exploration", parts=[e1_part("C13", dict(quick=30000, thorough=500000)), e5_part("C13", dict(quick=120, thorough=1500))] + [fuzz_part("layout", "C13", dict(quick=0, thorough=250000), 256)]),
-    "C14": dict(level="exploration", parts=[e5_part("C14", dict(quick=150, thorough=1500))]),
+    "C08": dict(level="exploration", parts=e4_parts("C08", dict(quick=150000, thorough=2000000), dict(quick=8, thorough=12)) + [fuzz_part("vecconv", "C08", dict(quick=0, thorough=600000), 128)]),
+    "C09": dict(level="fault_enumeration", parts=e4_parts("C09", dict(quick=150000, thorough=2000000), dict(quick=8, thorough=11)) + [fuzz_part("vecconv", "C09", dict(quick=0, thorough=600000), 128)]),
+    "C10": dict(level="exploration", parts=e4_parts("C10", dict(quick=100000, thorough=800000), dict(quick=12, thorough=40)) + [fuzz_part("vecconv", "C10", dict(quick=0, thorough=600000), 128)]),
+    "C12": dict(level="exploration", parts=[e1_part("C12", dict(quick=400000, thorough=4000000))] + [fuzz_part("layout", "C12", dict(quick=0, thorough=250000), 256)]),
+    "C11": dict(level="exploration", parts=[e5_part("C11", dict(quick=600, thorough=8000))]),
+    "C13": dict(level="exploration", parts=[e1_part("C13", dict(quick=60000, thorough=800000)), e5_part("C13", dict(quick=120, thorough=1500))] + [fuzz_part("layout", "C13", dict(quick=0, thorough=250000), 256)]),
+    "C14": dict(level="exploration", parts=[e5_part("C14", dict(quick=250, thorough=2000))]),
     "C17": dict(level="exploration", parts=[e5_part("C17", dict(quick=1500, thorough=20000))]),
-    "C18": dict(level="exploration", parts=[e1_part("C18", dict(quick=40000, thorough=600000))]),
+    "C18": dict(level="exploration", parts=[e1_part("C18", dict(quick=80000, thorough=800000))]),
     "C19": dict(level="exploration", parts=[
-        e1_part("C19", dict(quick=6000, thorough=100000)),
-        e1_part("C19x", dict(quick=300, thorough=6000)),
+        e1_part("C19", dict(quick=12000, thorough=150000)),
+        e1_part("C19x", dict(quick=600, thorough=8000)),
     ]),
-    "C20": dict(level="exploration", parts=[e1_part("C20", dict(quick=60000, thorough=1000000))] + [fuzz_part("layout", "C20", dict(quick=0, thorough=250000), 256)]),
+    "C20": dict(level="exploration", parts=[e1_part("C20", dict(quick=200000, thorough=2000000))] + [fuzz_part("layout", "C20", dict(quick=0, thorough=250000), 256)]),
 }
 
 
